@@ -33,7 +33,7 @@ fn f64_lit(f: f64) -> String {
 /// a fresh value (with its model) built by macros / conversions / parsing
 fn new_value(cfg: &GenCfg) -> Result<(Value, J), Violation> {
     trace::bump(C::dom_built_values);
-    Ok(match draw(16) {
+    Ok(match draw(24) {
         0 => (Value::new(), J::Null),
         1 => {
             let b = draw(2) == 1;
@@ -74,6 +74,38 @@ fn new_value(cfg: &GenCfg) -> Result<(Value, J), Violation> {
         ),
         13 => (array![1, "two", [3], {"four": 4}].into_value(), J::Arr(vec![J::Num("1".into()), J::Str("two".into()), J::Arr(vec![J::Num("3".into())]), J::Obj(vec![("four".into(), J::Num("4".into()))])])),
         14 => (object! {"k": "v", "n": null}.into_value(), J::Obj(vec![("k".into(), J::Str("v".into())), ("n".into(), J::Null)])),
+        16 => {
+            if draw(2) == 0 {
+                (Value::from(Some(5u64)), J::Num("5".into()))
+            } else {
+                (Value::from(None::<u64>), J::Null)
+            }
+        }
+        17 => (Value::from(std::borrow::Cow::Borrowed("cow")), J::Str("cow".into())),
+        18 => {
+            let c = gen::gen_char(cfg.classes);
+            (Value::from(c), J::Str(c.to_string()))
+        }
+        19 => (Value::from(&[1u64, 2, 3][..]), J::Arr(vec![J::Num("1".into()), J::Num("2".into()), J::Num("3".into())])),
+        20 => (Value::from(&[true, false]), J::Arr(vec![J::Bool(true), J::Bool(false)])),
+        21 => {
+            let one = Value::from(1u64);
+            let s = Value::from("s");
+            let v: Value = vec![("a", &one), ("b", &s)].into_iter().collect();
+            (v, J::Obj(vec![("a".into(), J::Num("1".into())), ("b".into(), J::Str("s".into()))]))
+        }
+        22 => {
+            let n = draw(4) as u64;
+            let a: Array = (0..n).collect();
+            (a.into_value(), J::Arr((0..n).map(|k| J::Num(k.to_string())).collect()))
+        }
+        23 => {
+            let t = Value::from(true);
+            let mut o: Object = vec![("x", &t)].into_iter().collect();
+            let z = 0u64;
+            o.extend(vec![("y", &z), ("x", &z)]);
+            (o.into_value(), J::Obj(vec![("x".into(), J::Num("0".into())), ("y".into(), J::Num("0".into()))]))
+        }
         _ => {
             let j = gen::gen_j(cfg);
             let text = gen::render(&j, &Style { ws: draw(3), esc: draw(2) });
@@ -835,6 +867,46 @@ pub fn run() -> SimResult {
                         }
                         if !v[1_000_000].is_null() {
                             return Err(mismatch(&what, "Index", "an out-of-range index did not read as null".into()));
+                        }
+                        // comparisons with primitives
+                        match target {
+                            J::Str(sv) => {
+                                let longer = format!("{}x", sv);
+                                if !(*v == sv.as_str()) || !(*v == *sv) || !(sv.as_str() == *v) || !(*v == FastStr::new(sv)) || *v == longer.as_str() || *v == true || *v == 0u64 {
+                                    return Err(mismatch(&what, "PartialEq<str>", format!("comparison with {:?} / primitives is wrong", sv)));
+                                }
+                            }
+                            J::Bool(b) => {
+                                if !(*v == *b) || *v == !*b || !(*b == *v) || *v == "true" {
+                                    return Err(mismatch(&what, "PartialEq<bool>", format!("comparison with {} is wrong", b)));
+                                }
+                            }
+                            J::Num(lit) => {
+                                if let Some(u) = oracle::expected_u64(lit) {
+                                    if !(*v == u) || *v == u.wrapping_add(1) || !(u == *v) {
+                                        return Err(mismatch(&what, "PartialEq<u64>", format!("comparison with {} is wrong", u)));
+                                    }
+                                }
+                                if let Some(i) = oracle::expected_i64(lit) {
+                                    if !(*v == i) || *v == i.wrapping_sub(1) {
+                                        return Err(mismatch(&what, "PartialEq<i64>", format!("comparison with {} is wrong", i)));
+                                    }
+                                }
+                                if let Some(f) = oracle::expected_f64(lit) {
+                                    if !(*v == f) || *v == f + 1.0 + f.abs() {
+                                        return Err(mismatch(&what, "PartialEq<f64>", format!("comparison with {} is wrong", f)));
+                                    }
+                                }
+                                if *v == "1" || *v == false {
+                                    return Err(mismatch(&what, "PartialEq", "a number compares equal to a string / bool".into()));
+                                }
+                            }
+                            J::Null => {
+                                if *v == false || *v == 0u64 || *v == "" {
+                                    return Err(mismatch(&what, "PartialEq", "null compares equal to a primitive".into()));
+                                }
+                            }
+                            _ => {}
                         }
                         match target {
                             J::Arr(a) => {
